@@ -427,7 +427,11 @@ func c11PersisterLoads(c *vk.Ctx) {
 			// every session is written through a persister of its own
 			for j := 0; j < k; j++ {
 				sid := fmt.Sprintf("user%02d", j)
-				st := state.NewState(flags)
+				fl := flags
+				if r.Chance(1, 3) {
+					fl = uint32(r.Range(0, int(flags))) // a record from before the application added flags
+				}
+				st := state.NewState(fl)
 				ca := cache.NewCache()
 				if capacity > 0 {
 					ca = ca.WithCacheSize(capacity)
@@ -448,8 +452,8 @@ func c11PersisterLoads(c *vk.Ctx) {
 				for p := 0; p < r.Range(0, 3); p++ {
 					st.Next()
 				}
-				for f := uint32(8); f < 8+flags; f++ {
-					if r.Chance(1, 3) {
+				for f := uint32(8); f < 8+fl; f++ {
+					if r.Chance(1, 2) {
 						st.SetFlag(f)
 					}
 				}
@@ -499,7 +503,8 @@ func c11PersisterLoads(c *vk.Ctx) {
 					if flush {
 						// what a session that does not exist yet would start from
 						fs, fc := app.SnapState(shared.GetState()), app.SnapCache(shared.Memory)
-						es := app.SnapState(state.NewState(flags))
+						// an empty state of the flag size of the session just saved (State.CloneEmpty)
+						es := app.SnapState(state.NewState(s.st.BitSize - 8))
 						ecache := cache.NewCache()
 						if capacity > 0 {
 							ecache = ecache.WithCacheSize(capacity)
@@ -544,8 +549,15 @@ func c11SharedPersisterRefused(c *vk.Ctx) {
 		cfgB.SessionId = "bob"
 		hist := a.History(r, r.Range(2, 8))
 		refused := strings.Repeat("9", r.Range(256, 400))
-		if r.Chance(1, 3) {
+		switch r.Intn(6) {
+		case 0, 1:
 			refused = "\n" // bad format: refused after initialization
+		case 2:
+			refused = "1" + strings.Repeat("é", 128) // 257 bytes, 129 characters
+		case 3:
+			refused = strings.Repeat("€", 86) // 258 bytes, 86 characters
+		case 4:
+			refused = strings.Repeat("1", 200) + strings.Repeat("𝄞", 14) // 256 bytes, 214 characters
 		}
 		c.Begin(key)
 		// reference: bob alone
